@@ -1,5 +1,6 @@
 #!/bin/bash
 # tools/mut.sh '<sed-expr>' <file-under-/repo> -- <check args...>   : apply a one-line mutation to /repo, run ./check, revert
+export VERIF_EVIDENCE_DIR=/verif/.scratch/evidence
 expr="$1"; file="$2"; shift 3
 cd /repo && git diff --quiet || { echo "repo dirty"; exit 9; }
 sed -i "$expr" "/repo/$file"
